@@ -267,7 +267,9 @@ class TypedNode(Node):
             if deep is None:
                 deep = True
             topnodes = child._root.children.copy()  # don't modify the source tree
-            if isinstance(before, (int, TypedNode)) or before is True:
+            if isinstance(before, int):
+                # Inserting all nodes at the same index reverses their order
+                # (not so, if we insert before the same *node*)
                 topnodes.reverse()
             for n in topnodes:
                 self.add_child(n, before=before, deep=deep)
